@@ -12,6 +12,7 @@ func init() {
 			return []runner.Job{
 				{Harness: "c17.encode", Mode: "plain", Shards: 16},
 				{Harness: "c17.decode", Mode: "plain", Shards: 16},
+				{Harness: "c17.utf8", Mode: "plain", Shards: 16},
 			}
 		},
 	})
